@@ -391,6 +391,12 @@ func check(c *runner.Ctx, car, vname, rules, form string, v reflect.Value, empty
 	}
 }
 
+// dropCache: a CacheEr that keeps nothing.
+type dropCache struct{}
+
+func (dropCache) Load(interface{}) (interface{}, bool) { return nil, false }
+func (dropCache) Store(interface{}, interface{})       {}
+
 func run(c *runner.Ctx) {
 	vals := values()
 	type rform struct{ rules, form string }
@@ -402,42 +408,120 @@ func run(c *runner.Ctx) {
 	for _, r := range otherRules {
 		forms = append(forms, rform{r, "other"}, rform{"required," + r, "required-first"}, rform{r + ",required", "required-last"})
 	}
-	c.Space("struct+var+map")
-	for _, tv := range vals {
-		for _, rf := range forms {
-			if !c.Take() {
-				continue
-			}
-			cars := []string{"struct-rm", "struct-tagged+rm", "struct-rm-set-per-rule", "struct-rm-after-plain-call", string(carrier.StructRMEdited)}
-			switch tv.v.Kind() { // Map documents scalar values only (int, float, bool, string)
-			case reflect.Slice, reflect.Array, reflect.Map, reflect.Struct, reflect.Ptr:
-			default:
-				cars = append(cars, "map", "map-iface", "map-25-entries", string(carrier.MapWrappers), string(carrier.MapRMEdited))
-			}
-			if carrier.TagOK(rf.rules) {
-				cars = append(cars, "struct-tag", "struct-tag-after-override", "struct-tag-after-rejected-call", "struct-tag-after-other-tag", "struct-tag-after-call-local-functions", "struct-tag-field-70", string(carrier.StructWrappers),
-					string(carrier.StructFirstLocalFn), string(carrier.StructFirstOverride), string(carrier.StructFirstOtherTag), string(carrier.StructFirstNested))
-			}
-			if tv.varOK {
-				cars = append(cars, "var", string(carrier.VarWrappers))
-			}
-			if tv.v.Kind() == reflect.String && tv.v.Type() == reflect.TypeOf("") {
-				cars = append(cars, "url-parameter-151-of-200", string(carrier.UrlWrappers), string(carrier.UrlRMEdited))
-			}
-			for _, car := range cars {
-				if strings.Contains(rf.rules, "exist") && !strings.HasPrefix(car, "struct-") {
-					continue // exist is documented for structs only
+	// the whole space once on the default cache, then the struct carriers again on struct-type caches that do not keep
+	// what they are given (capacity 0, capacity 1, a caller-supplied cache that drops every entry): legitimate CacheEr
+	// behaviour - an entry may be evicted between a Store and the next Load - under which the verdicts are the same
+	type cacheCfg struct {
+		name string
+		mk   func() valid.CacheEr
+	}
+	for _, cc := range []cacheCfg{{"", nil}, {"LRU(0)", func() valid.CacheEr { return valid.NewLRU(0) }}, {"LRU(1)", func() valid.CacheEr { return valid.NewLRU(1) }}, {"cache-that-drops-everything", func() valid.CacheEr { return dropCache{} }}} {
+		if cc.mk == nil {
+			c.Space("struct+var+map")
+		} else {
+			c.Space("struct-carriers/struct-type-cache=" + cc.name)
+			valid.SetStructTypeCache(cc.mk())
+		}
+		for _, tv := range vals {
+			for _, rf := range forms {
+				if !c.Take() {
+					continue
 				}
-				if car == "map-iface" && tv.v.Kind() == reflect.Ptr && tv.v.IsNil() {
-					continue // a typed nil inside interface{}: not a value shape of this property
+				cars := []string{"struct-rm", "struct-tagged+rm", "struct-rm-set-per-rule", "struct-rm-after-plain-call", string(carrier.StructRMEdited)}
+				switch tv.v.Kind() { // Map documents scalar values only (int, float, bool, string)
+				case reflect.Slice, reflect.Array, reflect.Map, reflect.Struct, reflect.Ptr:
+				default:
+					cars = append(cars, "map", "map-iface", "map-25-entries", string(carrier.MapWrappers), string(carrier.MapRMEdited))
 				}
-				check(c, car, tv.name, rf.rules, rf.form, tv.v, tv.empty, tv.trueZero, call(car, tv.v, rf.rules))
+				if carrier.TagOK(rf.rules) {
+					cars = append(cars, "struct-tag", "struct-tag-after-override", "struct-tag-after-rejected-call", "struct-tag-after-other-tag", "struct-tag-after-call-local-functions", "struct-tag-field-70", string(carrier.StructWrappers),
+						string(carrier.StructFirstLocalFn), string(carrier.StructFirstOverride), string(carrier.StructFirstOtherTag), string(carrier.StructFirstNested))
+				}
+				if tv.varOK {
+					cars = append(cars, "var", string(carrier.VarWrappers))
+				}
+				if tv.v.Kind() == reflect.String && tv.v.Type() == reflect.TypeOf("") {
+					cars = append(cars, "url-parameter-151-of-200", string(carrier.UrlWrappers), string(carrier.UrlRMEdited))
+				}
+				for _, car := range cars {
+					if strings.Contains(rf.rules, "exist") && !strings.HasPrefix(car, "struct-") {
+						continue // exist is documented for structs only
+					}
+					if cc.mk != nil && !strings.HasPrefix(car, "struct") {
+						continue
+					}
+					if car == "map-iface" && tv.v.Kind() == reflect.Ptr && tv.v.IsNil() {
+						continue // a typed nil inside interface{}: not a value shape of this property
+					}
+					check(c, car, tv.name, rf.rules, rf.form, tv.v, tv.empty, tv.trueZero, call(car, tv.v, rf.rules))
+				}
+				c.Sample(func() interface{} { return map[string]interface{}{"value": tv.name, "rules": rf.rules} })
 			}
-			c.Sample(func() interface{} { return map[string]interface{}{"value": tv.name, "rules": rf.rules} })
 		}
 	}
+	valid.SetStructTypeCache(valid.NewLRU())
 	longCollections(c)
 	zeroElements(c)
+	// Var on maps (round 12). Var documents scalars and slices; a map handed to it is either refused as a whole (what the
+	// unchanged library does) or, if it is accepted, judged like any other collection: an empty map under required never
+	// passes silently, and a non-empty one is never reported as missing. Both readings are accepted, nothing else.
+	c.Space("var-on-maps")
+	{
+		type NamedMap map[string]int
+		emptied := map[string]int{"a": 1}
+		delete(emptied, "a")
+		em := map[string]int{}
+		type mv struct {
+			name  string
+			v     interface{}
+			empty bool
+		}
+		maps := []mv{
+			{"map[string]int(nil)", map[string]int(nil), true}, {"map[string]int{}", map[string]int{}, true}, {"make(map[string]string, 8)", make(map[string]string, 8), true},
+			{"map emptied by delete", emptied, true}, {"NamedMap{}", NamedMap{}, true}, {"&map[string]int{}", &em, true}, {"map[int]bool{}", map[int]bool{}, true},
+			{"map[string]interface{}{}", map[string]interface{}{}, true}, {"map[string][]int{}", map[string][]int{}, true},
+			{"map[string]int{a:1}", map[string]int{"a": 1}, false}, {"NamedMap{a:0}", NamedMap{"a": 0}, false}, {"map[string]string{\"\":\"\"}", map[string]string{"": ""}, false},
+		}
+		for _, m := range maps {
+			for _, rf := range forms {
+				if rf.form == "other" || strings.Contains(rf.rules, "exist") {
+					continue
+				}
+				if !c.Take() {
+					continue
+				}
+				for _, spelling := range []string{"Var", "NewVVar+SetValidFn", "NewVVar"} {
+					x, rules := m.v, rf.rules
+					var f func() error
+					switch spelling {
+					case "Var":
+						f = func() error { return valid.Var(x, rules) }
+					case "NewVVar+SetValidFn":
+						f = func() error {
+							return valid.NewVVar().SetValidFn("unused", func(*strings.Builder, string, string, string, reflect.Value) {}).SetRules(rules).Valid(x)
+						}
+					default:
+						f = func() error { return valid.NewVVar().SetRules(rules).Valid(x) }
+					}
+					o := observe(f)
+					c.Done(m.empty, 1)
+					det := map[string]interface{}{"carrier": spelling, "value": m.name, "rules": rules, "error": o.err, "nil": o.nilRes, "panic": o.msg}
+					switch {
+					case o.pan:
+						c.Violation(fmt.Sprintf("panic@%s/var-on-map", o.site), det)
+					case m.empty && o.nilRes:
+						c.Outcome("empty-map-passes-required")
+						c.Violation("var/map/"+rf.form+"/empty-map-under-required-returns-nil", det)
+					case !m.empty && countReq(o) != 0:
+						c.Outcome("spurious-required")
+						c.Violation("var/map/"+rf.form+"/non-empty-value-reported-as-required", det)
+					default:
+						c.Outcome("map-refused-or-judged")
+					}
+				}
+			}
+		}
+	}
 	// missing entries: map without the key, URL without the parameter
 	c.Space("missing-and-url")
 	for _, rf := range forms {
@@ -494,7 +578,7 @@ func main() {
 	runner.Main(runner.Config{
 		Property:  "C03",
 		Technique: "complete product of supported field types x emptiness x rule forms x entry points on the real code vs emptiness model",
-		Rule: "every value of a 58-entry catalogue (strings, bool, all numeric kinds, slices nil/empty/non-empty, arrays, maps, structs, pointers to structs and scalars, multi-level pointers) x " +
+		Rule: "(round 12: the struct carriers again on struct-type caches that keep nothing - LRU(0), LRU(1), a caller-supplied cache that drops every entry; Var / NewVVar on 12 maps - nil, empty, emptied, named, pointer, non-empty - under every rule list with required: refused as a whole or judged as a collection, never passed silently) every value of a 58-entry catalogue (strings, bool, all numeric kinds, slices nil/empty/non-empty, arrays, maps, structs, pointers to structs and scalars, multi-level pointers) x " +
 			"{required alone (3 message forms), each of 31 other rules alone, required before it, required after it} x carriers {struct tag, struct per-call rule on an untagged field, per-call rule replacing optional tag rules, the tagged type right after a call that overrode its rules / right after rejected calls that carried rules, rules accumulated with one RM.Set call per rule, Var, map[string]T, map[string]interface{}} " +
 			"plus map/URL inputs with missing, bare and empty entries (incl. slices of maps whose elements lack / empty the key in every order); evaluation = one call; non-trivial = calls on an empty value",
 		Assumptions: []string{"empty-but-non-nil slices/maps are checked for required only (DESIGN §7)", "non-nil pointers to zero scalars are non-empty (the pointer is supplied)"},
